@@ -159,9 +159,9 @@ def mk_ff_result(mode, V):
     return Callback("ff_result", lambda I, n, a, k: a[0].name != rej), lambda n: n != rej
 
 
-def eval_traversal(th: TH, tname, form, nbmap, members, settings, ffr_mode, start="a"):
+def eval_traversal(th: TH, tname, form, nbmap, members, settings, ffr_mode, start="a", vcls="Vertex"):
     """-> dict(outcome=..., listing=[names] | exc, calls_ok=bool, calls=[...])"""
-    V = th.setup(nbmap, members)
+    V = th.setup(nbmap, members, vcls)
     d, uh, via = settings
     ff_via = Callback("ff_via") if via else None
     ffr, keep = mk_ff_result(ffr_mode, V)
@@ -206,7 +206,8 @@ def sweep_job(job):
     root, overlay, chunk, sc, base = job
     th = TH(Source(root, overlay))
     recs, n, k = [], 0, base
-    for inner, nbmap in chunk:
+    for mi, (inner, nbmap) in enumerate(chunk):
+        vcls = "SymFalsyVert" if (base + mi) % 2 else "Vertex"    # a traversal never depends on the truth value of a vertex
         for members in (None, list(inner)):
             member = (lambda v: True) if members is None else (lambda v, m=set(members): v in m)
             for tname in TRAVS:
@@ -218,7 +219,7 @@ def sweep_job(job):
                     n += 1
                     rec = dict(map={v: list(l) for v, l in nbmap.items()}, universe=members, trav=tname, form=form, settings=settings, ff_result=ffr)
                     try:
-                        r = eval_traversal(th, tname, form, nbmap, members, settings, ffr)
+                        r = eval_traversal(th, tname, form, nbmap, members, settings, ffr, vcls=vcls)
                     except Unknown as u:
                         if "budget" in str(u):
                             rec.update(kind="nonterm", got=str(u))
